@@ -585,6 +585,39 @@ func sigShapeOf(pc *progCase) string {
 	return ""
 }
 
+// succeedsWithSuffix re-runs pc.prog + OP_ENDIF.. + OP_1 when the last token
+// executes in the specification but the implementation's last Step failed: with
+// more tokens after it the end-of-script checks no longer run in that Step, so
+// the token must succeed.  (A token's effect does not depend on what follows.)
+func (b *binder) succeedsWithSuffix(pc *progCase, P int, open int) (bool, error) {
+	n := len(pc.prog)
+	last := pc.prog[n-1]
+	if last.Tr || n >= 200 {
+		return true, nil
+	}
+	for _, t := range pc.prog {
+		if t.Tr || (t.Op == "PUSH" && t.E.T == "sig") {
+			return true, nil // a program that pushes its own signature would sign another script
+		}
+	}
+	ext := append([]*Tok{}, pc.prog...)
+	for i := 0; i < open; i++ {
+		ext = append(ext, &Tok{Op: "OP_ENDIF", E: &Elem{T: "raw"}})
+	}
+	ext = append(ext, &Tok{Op: "OP_N", N: 1, E: &Elem{T: "raw"}})
+	sp, _, err := b.buildProgSpend(pc.t, pc.init, ext)
+	if err != nil {
+		return false, err
+	}
+	sp.flags = b.flags[pc.t.fs]
+	r := sp.observe(P + len(ext) + 8)
+	b.c.AddEval(1)
+	if r.panicked != "" || r.newErr != nil {
+		return true, nil // reported / judged elsewhere
+	}
+	return r.steps >= P+n, nil
+}
+
 func sep(s string) string {
 	if s == "" {
 		return ""
@@ -659,10 +692,18 @@ func (b *binder) compareSteps(pc *progCase, sp *spend, cc *Conc, r *stepRes, g *
 		}
 		if !realOK {
 			// the real step failed: fine only at the last token when the verdict is fail
-			// (end-of-script checks run inside the same Step)
+			// (end-of-script checks run inside the same Step) - and then only if the
+			// token itself still executes when more tokens follow it
 			c.AddEval(1)
 			if j < n || specOK {
 				return "step-should-succeed:" + op, fmt.Sprintf("token %d (%s) failed (%v) but the specification executes it", j, op, r.stepErr), map[string]any{"step": P + j}, nil
+			}
+			ok, err := b.succeedsWithSuffix(pc, P, e.s.cond)
+			if err != nil {
+				return "", "", nil, err
+			}
+			if !ok {
+				return "step-should-succeed:" + op, fmt.Sprintf("token %d (%s) failed (%v) even with more tokens after it, but the specification executes it", j, op, r.stepErr), map[string]any{"step": P + j}, nil
 			}
 			return "", "", nil, nil
 		}
